@@ -49,6 +49,33 @@ MUTS = {
    'wf.SetEXEC(wf.InitExecMask)', 'wf.SetEXEC(^uint64(0))'),
  'workgroup-id-y-written-as-x': ('amd/timing/cu/wfdispatcher.go',
    'insts.Uint32ToBytes(uint32(wf.WG.IDY)),', 'insts.Uint32ToBytes(uint32(wf.WG.IDX)),'),
+ # ---- load-return / register-read paths (dependent-load motifs, 2026-09-26)
+ 'seed3-c07-last-sgpr-operand-cache-not-cleared-by-scalar-load-return': 'PATCH:/tmp/seed3-c07/SEED/patch.diff',
+ 'seed4-c02-emulation-lds-buffer-reused-across-work-groups-never-cleared': 'PATCH:/tmp/seed4-c02/SEED/patch.diff',
+ 'vector-load-return-skips-last-dword-when-address-register-is-a-destination': ('amd/timing/cu/computeunit.go',
+   '\t\taccess.LaneID = laneInfo.laneID\n',
+   '\t\taccess.LaneID = laneInfo.laneID\n\t\tif inst.Dst != nil && inst.Addr != nil && inst.Dst.RegCount > 1 {\n\t\t\td, a := inst.Dst.Register.RegIndex(), inst.Addr.Register.RegIndex()\n\t\t\tif a >= d && a < d+inst.Dst.RegCount && laneInfo.reg.RegIndex() == d+inst.Dst.RegCount-1 {\n\t\t\t\tcontinue\n\t\t\t}\n\t\t}\n'),
+ 'scalar-return-at-wrong-sgpr-when-destination-overlaps-base-off-its-low-end': ('amd/timing/cu/scalarunit.go',
+   'DstSGPR:   insts.SReg(regIndex + int((curr-start)/4)),',
+   'DstSGPR:   insts.SReg(regIndex + int((curr-start)/4) + func() int {\n\t\t\t\tif b := rawInst.Base.Register.RegIndex(); b > regIndex && b < regIndex+byteSize/4 {\n\t\t\t\t\treturn 1\n\t\t\t\t}\n\t\t\t\treturn 0\n\t\t\t}()),'),
+ 'scalar-unit-base-address-cache-cleared-by-salu-but-not-by-load-return': [
+   ('amd/timing/cu/scalarunit.go', '\tlog2CachelineSize uint64\n\n\tisIdle bool\n}',
+    '\tlog2CachelineSize uint64\n\n\tisIdle bool\n\n\tlastBaseWf  *wavefront.Wavefront\n\tlastBaseReg *insts.Reg\n\tlastBaseVal uint64\n}'),
+   ('amd/timing/cu/scalarunit.go', '\tbaseVal := u.toExec.ReadOperand(rawInst.Base, 0)\n',
+    '\tbaseVal := u.toExec.ReadOperand(rawInst.Base, 0)\n\tif u.lastBaseWf == u.toExec && u.lastBaseReg == rawInst.Base.Register {\n\t\tbaseVal = u.lastBaseVal\n\t}\n\tu.lastBaseWf, u.lastBaseReg, u.lastBaseVal = u.toExec, rawInst.Base.Register, baseVal\n'),
+   ('amd/timing/cu/scalarunit.go', '\t\tu.alu.Run(u.toExec)\n', '\t\tu.lastBaseWf = nil\n\t\tu.alu.Run(u.toExec)\n')],
+ 'vgpr-pair-read-cache-cleared-by-valu-writes-but-not-by-vector-load-return': [
+   ('amd/timing/wavefront/wavefront.go', '\tRegAccessor RegFileAccessor\n',
+    '\tRegAccessor RegFileAccessor\n\n\tlastVReg *insts.Reg\n\tlastVVal [64]uint64\n\tlastVOK  [64]bool\n'),
+   ('amd/timing/wavefront/wavefront.go',
+    '\tcase insts.RegOperand:\n\t\twaveOffset := wf.SRegOffset\n\t\tif operand.Register.IsVReg() {\n\t\t\twaveOffset = wf.VRegOffset\n\t\t}\n\t\tbuf := wf.RegAccessor.ReadReg(operand.Register, operand.RegCount, laneID, waveOffset)\n\t\tif len(buf) < 8 {\n\t\t\tpadded := make([]byte, 8)\n\t\t\tcopy(padded, buf)\n\t\t\tbuf = padded\n\t\t}\n\t\treturn insts.BytesToUint64(buf)\n',
+    '\tcase insts.RegOperand:\n\t\tpair := operand.Register.IsVReg() && operand.RegCount == 2\n\t\tif pair && wf.lastVReg == operand.Register && wf.lastVOK[laneID] {\n\t\t\treturn wf.lastVVal[laneID]\n\t\t}\n\t\twaveOffset := wf.SRegOffset\n\t\tif operand.Register.IsVReg() {\n\t\t\twaveOffset = wf.VRegOffset\n\t\t}\n\t\tbuf := wf.RegAccessor.ReadReg(operand.Register, operand.RegCount, laneID, waveOffset)\n\t\tif len(buf) < 8 {\n\t\t\tpadded := make([]byte, 8)\n\t\t\tcopy(padded, buf)\n\t\t\tbuf = padded\n\t\t}\n\t\tif pair {\n\t\t\tif wf.lastVReg != operand.Register {\n\t\t\t\twf.lastVReg, wf.lastVOK = operand.Register, [64]bool{}\n\t\t\t}\n\t\t\twf.lastVVal[laneID], wf.lastVOK[laneID] = insts.BytesToUint64(buf), true\n\t\t}\n\t\treturn insts.BytesToUint64(buf)\n'),
+   ('amd/timing/wavefront/wavefront.go', '\tdata := insts.Uint64ToBytes(value)\n\twf.RegAccessor.WriteReg(', '\tdata := insts.Uint64ToBytes(value)\n\twf.lastVReg = nil\n\twf.RegAccessor.WriteReg('),
+   ('amd/timing/wavefront/wavefront.go', '\t\twaveOffset = wf.VRegOffset\n\t}\n\n\twf.RegAccessor.WriteReg(operand.Register, operand.RegCount, laneID, waveOffset, data)\n}',
+    '\t\twaveOffset = wf.VRegOffset\n\t}\n\n\twf.lastVReg = nil\n\twf.RegAccessor.WriteReg(operand.Register, operand.RegCount, laneID, waveOffset, data)\n}')],
+ 'scalar-load-result-dropped-when-destination-is-its-own-offset-register': ('amd/timing/cu/computeunit.go',
+   '\tcu.SRegFile.Write(access)\n\n\tcu.InFlightScalarMemAccess = append(',
+   '\tif off := info.Inst.Offset; !(off != nil && off.OperandType == insts.RegOperand && off.Register == info.DstSGPR && access.RegCount == 1) {\n\t\tcu.SRegFile.Write(access)\n\t}\n\n\tcu.InFlightScalarMemAccess = append('),
 }
 def sh(cmd, **kw):
     return subprocess.run(cmd, shell=True, capture_output=True, text=True, **kw)
@@ -57,10 +84,17 @@ def main():
     known = {e['key'] for e in json.load(open('/tmp/c02root/known_findings.json')) if e['property'] == 'C02'}
     results = []
     for n in names:
-        edits = MUTS[n] if isinstance(MUTS[n], list) else [MUTS[n]]
-        path = edits[0][0]
         sh('git checkout -- .', cwd=WT)
         bad = False
+        if isinstance(MUTS[n], str) and MUTS[n].startswith('PATCH:'):
+            path = MUTS[n][6:]
+            a = sh('git apply %s' % path, cwd=WT)
+            edits = []
+            if a.returncode != 0:
+                print(n, 'PATCH DOES NOT APPLY', a.stderr[-300:]); continue
+        else:
+            edits = MUTS[n] if isinstance(MUTS[n], list) else [MUTS[n]]
+            path = edits[0][0]
         for (pth, old, new) in edits:
             s = open(os.path.join(WT, pth)).read()
             if s.count(old) != 1:
